@@ -126,6 +126,8 @@ def x12n_document(param, src_file, fd_997, fd_html,
             print((walker.counter._dict))
         if node is None:
             node = orig_node
+            # errors the reader found in this segment belong to it, not to the next segment that is located
+            errh.handle_errors(src.pop_errors())
         else:
             if seg.get_seg_id() == 'ISA':
                 errh.add_isa_loop(seg, src)
